@@ -37,6 +37,8 @@ var slotDefs = []slotDef{
 	{"tag", "String", []*hx.Arg{{Name: "l", Type: hx.Named("String").NN()}}, "Tag"},
 	// a method taking an optional argument in an interface{} parameter (nil when it is not given)
 	{"opt", "String", []*hx.Arg{{Name: "o", Type: hx.Named("String")}}, "Opt"},
+	// three arguments whose Go parameters come in a rotated order (RegisterField says which)
+	{"trio", "String", []*hx.Arg{strArg(), boolArg(), {Name: "t", Type: hx.Named("String").NN()}}, "Trio"},
 	{"vals", "[V]", nil, "Vals"}, {"val", "V", nil, "Val"},
 }
 
@@ -235,6 +237,13 @@ func GenUniverse(t *rapid.T, o UniverseOpts, c *Case) map[string]UBinding {
 					continue
 				}
 				c.Rename[name+"."+gname] = "Swap(b,s)"
+				reg[name] = true
+			}
+			if sd.name == "trio" {
+				if isQuery {
+					continue
+				}
+				c.Rename[name+"."+gname] = "Trio(t,s,b)"
 				reg[name] = true
 			}
 			if used[gname] {
